@@ -51,6 +51,6 @@ claim('C04', 'c04_vectors.c',
 claim('C03', 'c03_maps.c',
       'CBMC inductive-step check: map set/get/remove/has_key/has_value/count/get_keys/get_values/get_pairs/iteration of the three classes from an arbitrary valid state vs an ideal dictionary; own-copy and use-after-removal checks',
       'For each class and every map operation, from every state with strictly ascending keys (symbolic keys/values/probes; enumerated key subsets for the array block moves) '
-      'the solver shows results equal an ideal dictionary, set reports replacement, the map keeps its own copies (the caller\\'s key and value are deleted before the read-back), '
+      'the solver shows results equal an ideal dictionary, set reports replacement, the map keeps its own copies (the key and value objects of the caller are deleted before the read-back), '
       'a removed pair is handed back once and unreachable afterwards, outputs are in ascending key order, and the representation invariant (incl. back links and tail) holds after every removal.',
       'DESIGN.md section 4, C03')
